@@ -57,7 +57,9 @@ var c08Helpers = []c08Helper{
 	{"ToActor", "Actor", c08To(ap.ToActor)}, {"OnActor", "Actor", c08Capture(func(it ap.Item, f func(*ap.Actor) error) error { return ap.OnActor(it, f) })},
 	{"ToActivity", "Activity", c08To(ap.ToActivity)}, {"OnActivity", "Activity", c08Capture(func(it ap.Item, f func(*ap.Activity) error) error { return ap.OnActivity(it, f) })},
 	{"ToIntransitiveActivity", "IntransitiveActivity", c08To(ap.ToIntransitiveActivity)},
-	{"OnIntransitiveActivity", "IntransitiveActivity", c08Capture(func(it ap.Item, f func(*ap.IntransitiveActivity) error) error { return ap.OnIntransitiveActivity(it, f) })},
+	{"OnIntransitiveActivity", "IntransitiveActivity", c08Capture(func(it ap.Item, f func(*ap.IntransitiveActivity) error) error {
+		return ap.OnIntransitiveActivity(it, f)
+	})},
 	{"ToQuestion", "Question", c08To(ap.ToQuestion)}, {"OnQuestion", "Question", c08Capture(func(it ap.Item, f func(*ap.Question) error) error { return ap.OnQuestion(it, f) })},
 	{"ToCollection", "Collection", c08To(ap.ToCollection)}, {"OnCollection", "Collection", c08Capture(func(it ap.Item, f func(*ap.Collection) error) error { return ap.OnCollection(it, f) })},
 	{"ToCollectionPage", "CollectionPage", c08To(ap.ToCollectionPage)},
@@ -65,7 +67,9 @@ var c08Helpers = []c08Helper{
 	{"ToOrderedCollection", "OrderedCollection", c08To(ap.ToOrderedCollection)},
 	{"OnOrderedCollection", "OrderedCollection", c08Capture(func(it ap.Item, f func(*ap.OrderedCollection) error) error { return ap.OnOrderedCollection(it, f) })},
 	{"ToOrderedCollectionPage", "OrderedCollectionPage", c08To(ap.ToOrderedCollectionPage)},
-	{"OnOrderedCollectionPage", "OrderedCollectionPage", c08Capture(func(it ap.Item, f func(*ap.OrderedCollectionPage) error) error { return ap.OnOrderedCollectionPage(it, f) })},
+	{"OnOrderedCollectionPage", "OrderedCollectionPage", c08Capture(func(it ap.Item, f func(*ap.OrderedCollectionPage) error) error {
+		return ap.OnOrderedCollectionPage(it, f)
+	})},
 	{"ToPlace", "Place", c08To(ap.ToPlace)}, {"OnPlace", "Place", c08Capture(func(it ap.Item, f func(*ap.Place) error) error { return ap.OnPlace(it, f) })},
 	{"ToProfile", "Profile", c08To(ap.ToProfile)}, {"OnProfile", "Profile", c08Capture(func(it ap.Item, f func(*ap.Profile) error) error { return ap.OnProfile(it, f) })},
 	{"ToRelationship", "Relationship", c08To(ap.ToRelationship)},
